@@ -12,4 +12,10 @@ replace (
 	gonum.org/v1/gonum/mat => github.com/gonum/gonum/mat v0.9.1
 )
 
-require github.com/bytom/bytom v0.0.0
+require (
+	github.com/bytom/bytom v0.0.0
+	github.com/golang/protobuf v1.4.3
+	github.com/pborman/uuid v1.2.1
+	github.com/sirupsen/logrus v1.8.1
+	github.com/tendermint/go-wire v0.16.0
+)
